@@ -180,15 +180,20 @@ func (p *pool) cleanup() {
 
 func (p *pool) putOnCooldown(peerID peer.ID) {
 	p.m.Lock()
-	defer p.m.Unlock()
-
-	if status, ok := p.statuses[peerID]; ok && status == active {
-		p.cooldown.push(peerID)
-
-		p.statuses[peerID] = cooldown
-		p.activeCount--
-		p.checkHasPeers()
+	status, ok := p.statuses[peerID]
+	if !ok || status != active {
+		p.m.Unlock()
+		return
 	}
+	p.statuses[peerID] = cooldown
+	p.activeCount--
+	p.checkHasPeers()
+	p.m.Unlock()
+
+	// push after releasing the pool lock: the queue's timer callback holds the queue lock while it
+	// calls back into the pool (afterCooldown), so taking the queue lock under the pool lock
+	// deadlocks with it.
+	p.cooldown.push(peerID)
 }
 
 func (p *pool) afterCooldown(peerID peer.ID) {
